@@ -137,7 +137,7 @@ def concrete_playback(snapshot, target_dir, harness, timeout=900, solver=None):
     return cands, out[-4000:]
 
 
-def native_replay(snapshot, native_target, harness, vals, timeout=600):
+def native_replay(snapshot, native_target, harness, vals, timeout=600, panic_only=False):
     """Run the same harness body natively (cfg verif_replay) on the concrete values, against the real code."""
     env = dict(os.environ)
     env.update(ENV_BASE)
@@ -155,12 +155,12 @@ def native_replay(snapshot, native_target, harness, vals, timeout=600):
         return {"outcome": "replay timed out", "reproduced": False, "cmd": " ".join(cmd)}
     m = re.search(r"VERIF-REPLAY-OUTCOME: (.*)", out)
     outcome = m.group(1).strip() if m else "no outcome line\n" + out[-1500:]
-    return {"outcome": outcome, "reproduced": bool(m) and (outcome.startswith("FAILED") or outcome.startswith("PANIC")),
+    return {"outcome": outcome, "reproduced": bool(m) and ((outcome.startswith("FAILED") and not panic_only) or outcome.startswith("PANIC")),
             "cmd": " ".join(cmd), "env": {"VERIF_REPLAY_HARNESS": harness.name,
                                           "VERIF_REPLAY_BYTES": env["VERIF_REPLAY_BYTES"]}}
 
 
-def native_grid_search(snapshot, native_target, harness, budget=3000000, timeout=600):
+def native_grid_search(snapshot, native_target, harness, budget=3000000, timeout=600, panic_only=False):
     """Native witness search: run the harness body over a grid of boundary values against the real code.
     Returns {found, vals, outcome, cmd}."""
     env = dict(os.environ)
@@ -169,6 +169,8 @@ def native_grid_search(snapshot, native_target, harness, budget=3000000, timeout
     env["RUSTFLAGS"] = (env.get("RUSTFLAGS", "") + " --cfg verif_replay -A warnings").strip()
     env["VERIF_REPLAY_HARNESS"] = harness.name
     env["VERIF_REPLAY_GRID"] = str(budget)
+    if panic_only:
+        env["VERIF_REPLAY_PANIC_ONLY"] = "1"     # a failed functional check is not a witness for a panic-freedom property
     test = harness.module_path + "::verif_replay_entry"
     cmd = ["cargo", "test", "--offline", "--lib", test, "--", "--exact", "--nocapture", "--test-threads", "1"]
     try:
